@@ -34,7 +34,7 @@ end end`},
   repeat
     n = n + 1
     ok, r = pcall(f)
-    if not ok then caught("ploop") end
+    if not ok then caught("pcall") end
   until ok or n >= 3
   emit("ploop", n)
   return r
